@@ -247,6 +247,10 @@ Definition conformant_set (b : bytes) : bool :=
   | x :: _ => (x <? 128) && (lenN b <=? 65535)
   end.
 
+(* the text of a generated String helper as bytes *)
+Definition str_of (r : res String.string) : sx :=
+  match r with Ok s => SB (string_bytes s) | _ => s_panic end.
+
 Definition run_c12 (c : sx) : sx :=
   match c with
   | SL [SZ 1; SB data] =>
@@ -306,7 +310,7 @@ Definition run_c12 (c : sx) : sx :=
       | _, _ => bad_case
       end
   | SL [SZ 9; SZ v] =>
-      s_ok []        (* the String helpers' text is not observed (extraction keeps clear of Coq strings);
-                         their totality is proved over the generated bodies in Proofs/AvcNalu.v *)
+      s_ok [str_of (avc_NALUType_String (v mod 256)%Z); str_of (avc_AVCProfile_String (v mod 65536)%Z);
+            str_of (avc_AVCLevel_String (v mod 256)%Z)]
   | _ => bad_case
   end.
